@@ -591,7 +591,7 @@ func genModes(g *h.Gen) {
 			ops = append(ops, h.Pick(r, []string{"Q", "Z", "ME 7", "W", "B", "PE"}), h.Pick(r, []string{"Q", "Z"}))
 		}
 		ops = append(ops, fitOps(name, cols)...)
-		g.Emit("modes %s%s %d %d %d %d %s", name, lockGuardSuffix(), r.Intn(2), alt, w, hh, strings.Join(ops, "; "))
+		g.Emit("modes %s%s %d %d %d %d %s", name, drawVariantSuffix(), r.Intn(2), alt, w, hh, strings.Join(ops, "; "))
 	}
 }
 
